@@ -16,6 +16,9 @@ pub fn file(w: u16, h: u16, fmt: &Fmt, durations: &[u16]) -> File {
     File { header: hdr(w, h, fmt), frames: durations.iter().map(|d| Frame::new(*d)).collect(), tail: vec![] }
 }
 
+/// pixel alphas cycle through semi-transparent values and the boundary values 255, 254, 1
+pub const ALPHAS: [u8; 11] = [171, 255, 96, 254, 200, 128, 127, 1, 245, 129, 64];
+
 /// Distinct, semi-transparent, channel-unequal pixels; `salt` separates cels.
 /// For indexed formats the indices cycle through `index_range`.
 pub fn pixels(fmt: &Fmt, w: usize, h: usize, salt: u32, index_range: (u8, u8)) -> Vec<u8> {
@@ -28,11 +31,11 @@ pub fn pixels(fmt: &Fmt, w: usize, h: usize, salt: u32, index_range: (u8, u8)) -
                 let r = (40 + k * 7) as u8;
                 let g = (90 + k * 13) as u8;
                 let b = (200u32.wrapping_sub(k * 11)) as u8;
-                let a = (96 + (k * 29) % 150) as u8;
+                let a = ALPHAS[(i as usize + salt as usize) % ALPHAS.len()];
                 out.extend_from_slice(&[r, g, b, a]);
             }
             Fmt::Gray => {
-                out.extend_from_slice(&[(30 + k * 17) as u8, (96 + (k * 29) % 150) as u8]);
+                out.extend_from_slice(&[(30 + k * 17) as u8, ALPHAS[(i as usize + salt as usize) % ALPHAS.len()]]);
             }
             Fmt::Indexed(_) => {
                 let span = (index_range.1 as u32 - index_range.0 as u32) + 1;
@@ -153,7 +156,8 @@ pub fn d1(fmt: &Fmt) -> File {
     let ir = (2u8, 6u8);
     {
         let fr = &mut f.frames[0];
-        fr.push(ext_files(vec![(5, "ext-five.aseprite"), (9, "ext-nine.aseprite")]));
+        // ids chosen to collide when truncated to 8 or 16 bits (5 vs 0x10005, 3 vs 0x10003)
+        fr.push(ext_files(vec![(5, "ext-five.aseprite"), (0x1_0005, "ext-nine.aseprite")]));
         fr.push(srgb_profile());
         let mut ents = pal_entries(5, 1);
         ents[1] = pal_entry([11, 22, 33, 44], Some("named"));
@@ -162,9 +166,9 @@ pub fn d1(fmt: &Fmt) -> File {
         let mut ts1 = tileset(3, 3, 2, 3, tile_pixels(fmt, 3, 2, 3, 5, ir), "tiles-a");
         ts1.base_index = -7;
         fr.push(Body::Tileset(ts1));
-        let mut ts2 = tileset(8, 2, 4, 1, tile_pixels(fmt, 2, 4, 1, 9, ir), "tiles-b");
+        let mut ts2 = tileset(0x1_0003, 2, 4, 1, tile_pixels(fmt, 2, 4, 1, 9, ir), "tiles-b");
         ts2.flags = 1 | 2 | 4;
-        ts2.ext_file = 9;
+        ts2.ext_file = 0x1_0005;
         ts2.ext_tileset = 77;
         ts2.base_index = 12;
         fr.push(Body::Tileset(ts2));
@@ -357,4 +361,76 @@ pub fn positions(f: &File, kind: &str) -> Vec<(usize, usize)> {
         }
     }
     v
+}
+
+/// Deterministic pseudo-random bytes (LCG): content that deflate cannot shrink much.
+pub fn noise(n: usize, seed: u32) -> Vec<u8> {
+    let mut s = seed.wrapping_mul(747796405).wrapping_add(2891336453);
+    (0..n)
+        .map(|_| {
+            s = s.wrapping_mul(1664525).wrapping_add(1013904223);
+            (s >> 24) as u8
+        })
+        .collect()
+}
+
+/// "big": every payload kind larger than 64 KiB (raw cel, compressed cel whose stream is
+/// itself > 64 KiB, tileset, tilemap), so that code paths that treat large chunks
+/// differently (buffer growth, block-wise reads) are exercised.  RGBA 160 x 128, 2 frames.
+pub fn big() -> File {
+    let fmt = Fmt::Rgba;
+    let (w, h) = (160u16, 128u16);
+    let mut f = file(w, h, &fmt, &[30, 40]);
+    let n = w as usize * h as usize * 4;
+    let fr = &mut f.frames[0];
+    fr.push(Body::Tileset(tileset(1, 70, 16, 16, {
+        let mut p = vec![0u8; 16 * 16 * 4];
+        p.extend(noise(69 * 16 * 16 * 4, 3));
+        p
+    }, "big-tiles")));
+    fr.push(Body::Layer(Layer::image("raw")));
+    let mut l1 = Layer::image("packed");
+    l1.blend = 2;
+    l1.opacity = 200;
+    fr.push(Body::Layer(l1));
+    fr.push(Body::Layer(Layer::tilemap("map", 1)));
+    fr.push(raw_cel(0, 0, 0, 255, w, h, noise(n, 1)));
+    fr.push(Body::UserData(UserData::text("raw-cel")));
+    fr.push(zcel(1, -3, 2, 190, w, h, noise(n, 2), 6));
+    fr.push(tm_cel(2, 0, 0, 255, 10, 8, (0..80u32).map(|i| i % 70).collect()));
+    f.frames[1].push(link_cel(0, 0, 0, 255, 0));
+    f.frames[1].push(tm_cel(2, 16, 16, 128, 150, 120, (0..18000u32).map(|i| (i * 7) % 70).collect()));
+    f
+}
+
+/// Many frames / many layers with cels at indices beyond 255, so that a coordinate
+/// truncated to 8 bits (or two coordinates packed too tightly) aliases distinct cels.
+/// `pattern` selects which cells exist.
+pub fn wide(nframes: usize, nlayers: usize, pattern: u32) -> File {
+    let fmt = Fmt::Rgba;
+    let d: Vec<u16> = (0..nframes).map(|i| 10 + (i % 500) as u16).collect();
+    let mut f = file(3, 2, &fmt, &d);
+    for l in 0..nlayers {
+        let mut ly = Layer::image(&format!("L{}", l));
+        ly.opacity = 255 - (l % 7) as u8;
+        f.frames[0].push(Body::Layer(ly));
+    }
+    for fr in 0..nframes {
+        for l in 0..nlayers {
+            let present = match pattern {
+                0 => (fr + l) % 3 == 0,
+                1 => (fr * 7 + l * 3) % 5 == 1,
+                2 => l % 256 == fr % 256 || (fr + l) % 97 == 0,
+                _ => (fr ^ l) & 3 == 0,
+            };
+            if present {
+                let uid = (fr * nlayers + l) as u32;
+                f.frames[fr].push(raw_cel(l as u16, (uid % 3) as i16 - 1, (uid % 2) as i16, 255 - (uid % 5) as u8, 2, 1, pixels(&fmt, 2, 1, uid, (0, 0))));
+                if uid % 4 == 0 {
+                    f.frames[fr].push(Body::UserData(UserData::text(&format!("c{}", uid))));
+                }
+            }
+        }
+    }
+    f
 }
